@@ -148,6 +148,10 @@ type QCfg struct {
 	NoInSubNullItem   bool // the select item of an IN subquery is never a bare NULL literal
 	NoCoalesceDecMix  bool // COALESCE never has two DECIMAL arguments of different precision/scale
 	NoOuterOnlyInSub  bool // a leaf predicate inside a subquery never references outer columns only
+	NoHavingOtherTab  bool // in a block with >= 2 tables HAVING aggregates only range over the first table of the FROM list
+	NoHavingAliasSort bool // grouped block with HAVING: expression items are sorted by ordinal, not by alias
+	NoDistinctOrdinal bool // SELECT DISTINCT is never sorted by ordinal
+	NoConstFalseOnSub bool // a block with a constant-false ON condition has no subquery
 }
 
 type tabRef struct {
@@ -291,9 +295,10 @@ func (g *Gen) num(c *gctx, t Type, depth int) *Expr {
 		return &Expr{Op: "coalesce", T: t, Args: args}
 	case x < 84:
 		return &Expr{Op: "ifnull", T: t, Args: []*Expr{g.num(c, t, depth-1), g.num(c, t, depth-1)}}
-	case x < 94 && c.depth > 0:
-		return g.scalarSub(c, t)
 	}
+	// scalar subqueries are never generated inside arithmetic / CASE / COALESCE: this engine types
+	// SUM as DOUBLE, so such expressions leave exact arithmetic (guard: no float arithmetic). They
+	// appear only as a direct comparison operand (pred) or as a whole select item (itemOfType).
 	return g.col(c, t)
 }
 
@@ -311,8 +316,30 @@ func (g *Gen) str(c *gctx, compound bool) *Expr {
 
 var cmpSyms = []string{"=", "=", "=", "<>", "<", "<=", ">", ">=", "<=>"}
 
-// pred generates a predicate.
+// pred generates a predicate. Inside a subquery a leaf predicate that would reference outer
+// columns only is regenerated over the local tables (NoOuterOnlyInSub).
 func (g *Gen) pred(c *gctx, depth int) *Expr {
+	e := g.pred0(c, depth)
+	if g.cfg.NoOuterOnlyInSub && len(c.outer) > 0 && len(c.local) > 0 && e.Op != "and" && e.Op != "or" && e.Op != "not" {
+		local := e.Op == "exists"
+		for _, r := range c.local {
+			alias := r.alias
+			e.walkShallow(func(x *Expr) {
+				if x.Op == "col" && x.Tab == alias {
+					local = true
+				}
+			})
+		}
+		if !local {
+			lc := *c
+			lc.outer = nil
+			return g.pred0(&lc, 0)
+		}
+	}
+	return e
+}
+
+func (g *Gen) pred0(c *gctx, depth int) *Expr {
 	if depth > 0 && g.pct(40) {
 		switch x := g.rnd.Intn(10); {
 		case x < 4:
@@ -331,7 +358,7 @@ func (g *Gen) pred(c *gctx, depth int) *Expr {
 			return g.exists(c)
 		}
 		t := g.numType()
-		return &Expr{Op: "cmp", T: TBool, Sym: cmpSyms[g.rnd.Intn(len(cmpSyms))], Args: []*Expr{g.num(c, t, 0), g.scalarSub(c, t)}}
+		return &Expr{Op: "cmp", T: TBool, Sym: cmpSyms[g.rnd.Intn(len(cmpSyms))], Args: []*Expr{g.nonLit(c, g.num(c, t, 0)), g.scalarSub(c, t)}}
 	}
 	switch {
 	case x < 62:
@@ -362,19 +389,28 @@ func (g *Gen) anyExpr(c *gctx, depth int) *Expr {
 	return g.col(c, TStr)
 }
 
+// nonLit replaces a literal by a column of the same family: comparisons, BETWEEN and IN never have
+// a constant left operand, so no predicate folds to a constant (the deliberate ON (1 = 0) aside).
+func (g *Gen) nonLit(c *gctx, e *Expr) *Expr {
+	if e.Op == "lit" {
+		return g.col(c, e.T)
+	}
+	return e
+}
+
 func (g *Gen) cmp(c *gctx, depth int) *Expr {
 	sym := cmpSyms[g.rnd.Intn(len(cmpSyms))]
 	var l, r *Expr
 	switch x := g.rnd.Intn(100); {
 	case x < 50: // int vs int
-		l = g.num(c, TInt, depth)
+		l = g.nonLit(c, g.num(c, TInt, depth))
 		if g.pct(35) {
 			r = g.intLit()
 		} else {
 			r = g.num(c, TInt, depth)
 		}
 	case x < 70: // dec vs dec / dec literal / int literal
-		l = g.num(c, TDec, depth)
+		l = g.nonLit(c, g.num(c, TDec, depth))
 		switch {
 		case g.pct(30):
 			r = g.decLit()
@@ -421,7 +457,7 @@ func (g *Gen) between(c *gctx) *Expr {
 		if g.pct(30) {
 			hi = g.col(c, TInt)
 		}
-		e.Args = []*Expr{g.num(c, TInt, 1), lo, hi}
+		e.Args = []*Expr{g.nonLit(c, g.num(c, TInt, 1)), lo, hi}
 	case x < 8:
 		lo, hi := g.decLit(), g.decLit()
 		if g.pct(30) {
@@ -439,7 +475,7 @@ func (g *Gen) inList(c *gctx) *Expr {
 	n := 1 + g.rnd.Intn(4)
 	switch x := g.rnd.Intn(10); {
 	case x < 6:
-		e.Args = []*Expr{g.num(c, TInt, 1)}
+		e.Args = []*Expr{g.nonLit(c, g.num(c, TInt, 1))}
 		for i := 0; i < n; i++ {
 			if g.pct(20) {
 				e.Args = append(e.Args, g.col(c, TInt))
@@ -481,7 +517,7 @@ func (g *Gen) inSub(c *gctx) *Expr {
 	if t == TStr {
 		l = g.col(c, TStr)
 	} else {
-		l = g.num(c, t, 1)
+		l = g.nonLit(c, g.num(c, t, 1))
 	}
 	q := g.selectBlock(g.subCtx(c), blockOpts{want: []Type{t}, sub: true})
 	if g.cfg.NoInSubNullItem && q.Items[0].E.Op == "lit" && q.Items[0].E.V.IsNull() {
@@ -569,6 +605,7 @@ func (g *Gen) selectBlock(c *gctx, o blockOpts) *Query {
 		n = o.nTables
 	}
 	// FROM and joins
+	depth0 := c.depth
 	for k := 0; k < n; k++ {
 		t := g.pickTable()
 		f := &FromItem{Table: t.Name, Alias: g.newAlias()}
@@ -586,6 +623,13 @@ func (g *Gen) selectBlock(c *gctx, o blockOpts) *Query {
 			}
 			if f.Join != "CROSS" {
 				f.On = g.onPred(c)
+				if g.cfg.NoConstFalseOnSub && f.On.Op == "cmp" && f.On.Args[0].Op == "lit" && f.On.Args[1].Op == "lit" {
+					if depth0 > 0 && g.pct(50) {
+						f.On = g.onEq(c) // keep the subqueries, give up the constant-false ON
+					} else {
+						c.depth = 0 // keep the constant-false ON: this block gets no subquery
+					}
+				}
 			}
 		}
 		q.From = append(q.From, f)
@@ -625,6 +669,13 @@ func (g *Gen) selectBlock(c *gctx, o blockOpts) *Query {
 		}
 	}
 	return q
+}
+
+// onEq is a plain equi-join condition.
+func (g *Gen) onEq(c *gctx) *Expr {
+	nc := &gctx{local: c.local[len(c.local)-1:], depth: 0}
+	oc := &gctx{local: c.local[:len(c.local)-1], depth: 0}
+	return &Expr{Op: "cmp", T: TBool, Sym: "=", Args: []*Expr{g.col(oc, TInt), g.col(nc, TInt)}}
 }
 
 // onPred: mostly an equality between a column of the newly joined table and an earlier one.
@@ -669,6 +720,9 @@ func (g *Gen) itemOfType(c *gctx, t Type, o blockOpts) *Expr {
 	ic := &gctx{local: c.local, outer: c.outer, depth: 0, corrPct: 0}
 	if c.depth > 0 && !o.sub && g.pct(12) {
 		ic.depth = c.depth
+	}
+	if ic.depth > 0 && (t == TInt || t == TDec) && g.pct(50) {
+		return g.scalarSub(ic, t)
 	}
 	switch t {
 	case TInt:
@@ -835,6 +889,9 @@ func (g *Gen) havingPred(c *gctx, q *Query, depth int) *Expr {
 		var listed []*Expr
 		for _, it := range q.Items {
 			if it.E.Op == "agg" && it.E.Sym != "AVG" {
+				if g.cfg.NoHavingOtherTab && len(c.local) > 1 && refersOther(it.E, c.local[0].alias) {
+					continue
+				}
 				listed = append(listed, it.E)
 			}
 		}
@@ -843,7 +900,11 @@ func (g *Gen) havingPred(c *gctx, q *Query, depth int) *Expr {
 		} else if g.cfg.NoHavingOnlyAgg {
 			operand = &Expr{Op: "agg", T: TInt, Sym: "COUNT", Star: true}
 		} else {
-			operand, _ = g.aggExpr(c, []Type{TInt, TInt, TDec, TStr}[g.rnd.Intn(4)], false)
+			hc := c
+			if g.cfg.NoHavingOtherTab && len(c.local) > 1 {
+				hc = &gctx{local: c.local[:1]}
+			}
+			operand, _ = g.aggExpr(hc, []Type{TInt, TInt, TDec, TStr}[g.rnd.Intn(4)], false)
 		}
 	}
 	if g.pct(12) {
@@ -860,6 +921,17 @@ func (g *Gen) havingPred(c *gctx, q *Query, depth int) *Expr {
 		return &Expr{Op: "isnull", T: TBool, Not: g.pct(50), Args: []*Expr{operand}}
 	}
 	return &Expr{Op: "cmp", T: TBool, Sym: cmpSyms[g.rnd.Intn(len(cmpSyms))], Args: []*Expr{operand, r}}
+}
+
+// refersOther reports whether the expression references a table alias other than first.
+func refersOther(e *Expr, first string) bool {
+	other := false
+	e.walk(func(x *Expr) {
+		if x.Op == "col" && x.Tab != first {
+			other = true
+		}
+	})
+	return other
 }
 
 // Query generates one top-level query: a block or a set operation over two blocks, with an optional
@@ -909,6 +981,21 @@ func (g *Gen) Query() *Query {
 	w := q.Width()
 	if g.pct(50) {
 		ordinal := q.Star || (q.SetOp == "" && g.pct(25))
+		if g.cfg.NoDistinctOrdinal && q.SetOp == "" && q.Distinct {
+			if q.Star {
+				return q // SELECT DISTINCT * has no aliases to sort by
+			}
+			ordinal = false
+		}
+		defer func() {
+			if g.cfg.NoHavingAliasSort && q.SetOp == "" && q.Grouped && q.Having != nil {
+				for i := range q.OrderBy {
+					if op := q.Items[q.OrderBy[i].Item].E.Op; op != "col" && op != "agg" {
+						q.OrderBy[i].Ordinal = true
+					}
+				}
+			}
+		}()
 		if !approx && g.pct(45) {
 			// total order + LIMIT
 			perm := g.rnd.Perm(w)
